@@ -201,6 +201,18 @@ def hostile_files():
         return b.source_unit([b.pragma('solidity', '^0.8.4'), c]), []
     out.append(('receivers of every expression shape', receivers))
 
+    def tighter_as_declared(b):
+        """member lists whose DECLARED order needs fewer slots than the ascending order (8, 248, 128, 128: 2 slots against 3) and lists where
+        sorting saves nothing: any arithmetic on the two slot counts must cope with either sign"""
+        u = lambda n_: b.ty('Uint', n_)
+        lists = [[8, 248, 128, 128], [16, 240, 128, 128, 8], [128, 128, 8, 248], [256], [8, 8], [248, 8, 248, 8], [96, 160, 96, 160, 8, 248]]
+        members = []
+        for k, sizes in enumerate(lists):
+            members.append(b.struct('S%d' % k, [(u(sz), 'm%d' % i) for i, sz in enumerate(sizes)]))
+        contracts = [fam.contract_with(b, [b.state_var(u(sz), 'v%d_%d' % (k, i)) for i, sz in enumerate(sizes)], name='C%d' % k) for k, sizes in enumerate(lists)]
+        return b.source_unit([b.pragma('solidity', '0.8.16'), fam.contract_with(b, members, name='Structs')] + contracts + [b.supart(b.struct('F', [(u(sz), 'm%d' % i) for i, sz in enumerate(lists[0])]))]), []
+    out.append(('member lists that pack tighter as declared than sorted', tighter_as_declared))
+
     def type_shapes(b):
         """state variables, struct fields, parameters and locals whose TYPE is written in every form the grammar has: elementary, user
         name, qualified name `A.B`, arrays (fixed / dynamic / nested), mappings (nested, user-typed keys), function types"""
